@@ -107,7 +107,7 @@ def block_box_layout(context, box, bottom_space, skip_stack,
             columns_bottom_space = (
                 new_box.margin_bottom + new_box.padding_bottom +
                 new_box.border_bottom_width)
-            if columns_bottom_space:
+            if columns_bottom_space > 0:
                 remove_placeholders(
                     context, [new_box], absolute_boxes, fixed_boxes)
                 bottom_space += columns_bottom_space
